@@ -6,13 +6,11 @@
     the owner tally, all-or-nothing deduction); on the unchanged code
     [consumer_charged_sum_of_request_fees] is false (corpus/C07/discount-overcharge.jsonl).
 
-    NOT proved here (stated in notes/service.md): that the END BLOCKER preserves
-    "request escrow = fees of active requests + earned fees" over arbitrary histories; what is
-    proved is that every other step preserves it ([request_escrow_preserved_by_transactions]) and
-    the exact effect on the escrow of each end-block action (one batch issued, one request
-    expired).  The equation itself is evaluated on the implementation's observations after every
-    step of every generated history (Check.v, clause 2). *)
-From Irismod Require Import Service.Model Service.Proofs Service.ProofsHist Service.ProofsEscrow.
+    [request_escrow_eq_liabilities] needs one hypothesis on the history, [fresh_history]: no
+    context id (tx hash, per-block index) is issued while a context with that id is still
+    stored — distinct transactions have distinct hashes (SHA-256 collision-freeness). *)
+From Irismod Require Import Service.Model Service.Proofs Service.ProofsHist Service.ProofsEscrow
+  Service.ProofsSched Service.ProofsBatch Service.ProofsLiab.
 
 (** Over EVERY history (any list of steps: messages of any kind and content, valid or not, block
     ends with expiry, slashing, refunds and new batches, rate changes, transfers, module
@@ -113,6 +111,22 @@ Theorem slash_amount :
 Proof. exact slash_amount_lemma. Qed.
 Print Assumptions slash_amount.
 
+(** Over EVERY history in which context ids are fresh (see the header), for every parameter
+    set, from any initial height, time and ledger with empty escrows: in every denom the
+    balance of the request escrow equals the fees of the requests still awaiting a response
+    plus the earned fees not yet withdrawn ([liab d s]).  The proof carries the scheduling
+    invariant (a batch is only started when the previous one is closed, CleanBatch only ever
+    removes inactive requests, a running batch never has more active requests than responses
+    outstanding, queue entries and height markers agree) through both end-block handlers. *)
+Theorem request_escrow_eq_liabilities :
+  forall c steps h0 t0 l0,
+    (forall d, bal l0 REQ d = 0) -> bal l0 DEP BASE = 0 ->
+    fresh_history c (init h0 t0 l0) steps ->
+    let s := run c (init h0 t0 l0) steps in
+    forall d, bal (led s) REQ d = liab d s.
+Proof. exact request_escrow_eq_liabilities_lemma. Qed.
+Print Assumptions request_escrow_eq_liabilities.
+
 (** Writing [liab d s] for (fees of the active requests in denom d) + (earned fees in denom d):
     if the request escrow equals the liabilities in every denom, it still does after ANY step
     other than a block end — any message of any content (responses, withdrawals, bindings,
@@ -177,4 +191,13 @@ Proof.
     reflexivity.
   - vm_compute. reflexivity.
   - apply (DepInv_reachable ex_cfg (firstn 5 ex_hist) 1 1000 ex_l0). reflexivity.
+Qed.
+
+Example c07_fresh_history_satisfiable :
+  fresh_history ex_cfg (init 1 1000 ex_l0) ex_hist /\ (forall d, bal ex_l0 REQ d = 0).
+Proof.
+  split.
+  - unfold ex_hist. cbn [fresh_history]. repeat split; vm_compute; try reflexivity; exact I.
+  - intros d. unfold bal, ex_l0. simpl.
+    repeat match goal with |- context [eq_dec ?a ?b] => destruct (eq_dec a b) as [E0|E0]; [inversion E0|] end; reflexivity.
 Qed.
